@@ -1,7 +1,7 @@
 (* C14Theorems.v — the property theorems of C14 and nothing else.  Each is closed by
    `exact <lemma>` and followed by Print Assumptions (audited by ./check on every run). *)
 From V.lib Require Import Base.
-From V.c14 Require Import C14Spec C14Model C14WordProofs C14ScanProofs C14ConvProofs C14WalkProofs.
+From V.c14 Require Import C14Spec C14Model C14WordProofs C14ScanProofs C14ConvProofs C14WalkProofs C14StreamProofs.
 
 (* the word bit-trick of hasZeroByte is exactly "some byte of the word is zero", for every 8-byte
    word, whichever byte order the load uses *)
@@ -120,4 +120,42 @@ Example C14_helpers_ex :
   avc_find_nalu_types_up_to_video (sample ns) = Ok [9;7;8;5]%N /\
   avc_get_parameter_sets (sample ns) = Ok ([], [[103;66;0]], [[104;206]])%N /\
   hevc_is_rap_sample (sample [[64;1;12]; [38;1;175]]%N) = Ok true.
+Proof. vm_compute. repeat split; reflexivity. Qed.
+
+(* the byte-stream loop skeleton shared by the four Annex B helpers visits, on ANY byte string, exactly
+   the start-code positions of the naive scan (in order) *)
+Theorem C14_byte_stream_loop_events :
+  forall (St R : Type) (body : Z -> St -> res (St + R)) (d : list N) (st : St),
+  bs_loop body (S (length d)) d (Zlen d) 0 st =
+  bs_events body (filter (is_sc d) (zrange 0 (Z.to_nat (Zlen d - 3 - 0)))) st.
+Proof. exact (fun St R body d st => bs_loop_events body d (S (length d)) 0%Z st (Z.le_refl 0) ltac:(unfold Zlen; lia)). Qed.
+Print Assumptions C14_byte_stream_loop_events.
+
+(* helpers that walk an Annex B byte stream (AVC and HEVC): on `stream us` (well-formed units, any
+   start-code mix) they return the obvious functions of the unit list *)
+Theorem C14_helpers_stream : forall us : list (bool * list N), wf_units us = true ->
+  let ns := map snd us in
+  extract_nalus_from_byte_stream (stream us) = Ok ns /\
+  avc_get_first_video_nalu (stream us) = Ok (first_video avc_type avc_is_video ns) /\
+  avc_get_parameter_sets_from_byte_stream (stream us) =
+    Ok ([], of_type avc_type 7 (before_video avc_type avc_is_video ns),
+            of_type avc_type 8 (before_video avc_type avc_is_video ns)) /\
+  hevc_get_parameter_sets_from_byte_stream (stream us) =
+    Ok (of_type hevc_type 32 (before_video hevc_type hevc_is_video ns),
+        of_type hevc_type 33 (before_video hevc_type hevc_is_video ns),
+        of_type hevc_type 34 (before_video hevc_type hevc_is_video ns)) /\
+  (forall want stop, avc_extract_nalus_of_type want stop (stream us) =
+     Ok (of_type avc_type want (if stop then before_video avc_type avc_is_video ns else ns))) /\
+  (forall want stop, hevc_extract_nalus_of_type want stop (stream us) =
+     Ok (of_type hevc_type want (if stop then before_video hevc_type hevc_is_video ns else ns))).
+Proof. exact helpers_stream. Qed.
+Print Assumptions C14_helpers_stream.
+
+(* SPS, PPS with nothing after them: the last parameter set is returned (it was lost before the fix) *)
+Example C14_helpers_stream_ex :
+  let us := [(true, [103;170]); (false, [104;187])]%N in
+  wf_units us = true /\
+  avc_get_parameter_sets_from_byte_stream (stream us) = Ok ([], [[103;170]], [[104;187]])%N /\
+  extract_nalus_from_byte_stream (stream us) = Ok [[103;170]; [104;187]]%N /\
+  avc_extract_nalus_of_type 0 true (stream [(true, [160])]%N) = Ok [].
 Proof. vm_compute. repeat split; reflexivity. Qed.
